@@ -141,6 +141,18 @@ fn so2_interp_convex() {
     sp.interpolate(&a, &b, t, &mut o);
     assert!(o.value >= sp.bounds.0 - 1e-9 && o.value <= sp.bounds.1 + 1e-9);
 }
+// concrete witness of the known finding (no search): bounds (-3, 3), a = -2.9, b = 2.9, t = 0.5 -> the short arc passes through +-PI
+#[kani::proof]
+#[kani::stub(f64::rem_euclid, rem_euclid_model)]
+fn so2_interp_convex_witness() {
+    let sp = SO2StateSpace::new(Some((-3.0, 3.0))).unwrap();
+    let a = SO2State { value: -2.9 };
+    let b = SO2State { value: 2.9 };
+    assert!(sp.satisfies_bounds(&a) && sp.satisfies_bounds(&b));
+    let mut o = a.clone();
+    sp.interpolate(&a, &b, 0.5, &mut o);
+    assert!(sp.satisfies_bounds(&o));
+}
 // ... but it does hold when the interval spans less than a half circle and stays away from the +-PI seam
 #[kani::proof]
 #[kani::stub(f64::rem_euclid, rem_euclid_model)]
